@@ -97,6 +97,16 @@ CHECKS = {
   note="Sanitizers miss in-bounds reads of the wrong bytes and far out-of-bounds accesses; signed-integer-overflow is "
        "not counted (the property is about crashes, hangs and out-of-bounds accesses). Quick: 16 bases, 8 mutants per "
        "mutation class; thorough: 48 bases, every mutant."),
+ "C13": dict(
+  cat="exploration", ref="DESIGN.md section 3, C13",
+  technique="runtime monitoring: independent parser of .prv/.pcf/.row over generated accepted traces, well-formedness and self-consistency rules as oracle",
+  text="Accepted traces from the all-model history generator (marks with labels, nOS-V/Nanos6 tasks and types, ranks, 1-5 "
+       "looms with scrambled names, CPUs declared by one or by every thread) and -b breakdown runs are emulated by the "
+       "real ovniemu; every thread/cpu/breakdown .prv, .pcf and .row is parsed independently and must satisfy: "
+       "non-decreasing timestamps, rows within the declared count, header duration equal to the last input event time, "
+       "every event type declared in the matching .pcf, every non-zero value of a state type labelled, .row naming "
+       "exactly the declared rows in the documented order (from the reference system model).",
+  note="Only accepted traces are in scope; the row order oracle is lib/refemu.py's reading of the documentation."),
 }
 
 NOT_YET = "check not implemented yet in this revision (work in progress, see DESIGN.md section 3)"
